@@ -487,7 +487,11 @@ void UtilContext::write8(const char *token)
 
   token = get_address(token, &address);
 
-  if (token == nullptr) { printf("Syntax error: bad address\n"); }
+  if (token == nullptr)
+  {
+    printf("Syntax error: bad address\n");
+    return;
+  }
 
   int n = address;
 
@@ -514,7 +518,11 @@ void UtilContext::write16(const char *token)
 
   token = get_address(token, &address);
 
-  if (token == nullptr) { printf("Syntax error: bad address\n"); }
+  if (token == nullptr)
+  {
+    printf("Syntax error: bad address\n");
+    return;
+  }
 
   int mask = (alignment - 1) & 0x1;
 
@@ -550,7 +558,11 @@ void UtilContext::write32(const char *token)
 
   token = get_address(token, &address);
 
-  if (token == nullptr) { printf("Syntax error: bad address\n"); }
+  if (token == nullptr)
+  {
+    printf("Syntax error: bad address\n");
+    return;
+  }
 
   if ((address & (alignment - 1)) != 0)
   {
@@ -618,9 +630,9 @@ const char *UtilContext::get_num(const char *token, uint32_t *num)
     return get_hex(token + 2, num);
   }
 
-  // Look for end incase there is an h there.
+  // Look for the end of this number incase there is an h there.
   s = 0;
-  while (token[s] != 0) { s++; }
+  while (token[s] != 0 && token[s] != ' ') { s++; }
 
   if (s == 0) { return nullptr; }
 
@@ -791,7 +803,8 @@ const char *UtilContext::get_hex(const char *token, uint32_t *num)
 
   *num = n;
 
-  if (token[s] != '-') s++;
+  // Skip the terminating space or 'h', but not the end of the string.
+  if (token[s] != '-' && token[s] != 0) s++;
 
   return token + s;
 }
